@@ -101,13 +101,8 @@ def gen_group(rng, et, n, small_domain=False):
     return events
 
 
-def build_ontology(et):
-    from edxml.ontology import Ontology
-    o = Ontology()
-    for fam, (dt, _n, _pool) in FAMILIES.items():
-        o.create_object_type(fam, data_type=dt)
-    o.create_event_source('/a/')
-    t = o.create_event_type('t')
+def add_event_type(o, name, et):
+    t = o.create_event_type(name)
     for p in et['props']:
         ep = t.create_property(p['name'], p['fam'])
         if p['optional']:
@@ -118,8 +113,41 @@ def build_ontology(et):
     if et['vp']:
         t.set_version_property_name(et['vp'])
     t.create_attachment('att')
+    return t
+
+
+def build_ontology(et, sibling=None):
+    """The ontology of a case. `sibling`: (name, event type table) of a second event type defined next to 't'."""
+    from edxml.ontology import Ontology
+    o = Ontology()
+    for fam, (dt, _n, _pool) in FAMILIES.items():
+        o.create_object_type(fam, data_type=dt)
+    o.create_event_source('/a/')
+    t = add_event_type(o, 't', et)
+    if sibling is not None:
+        add_event_type(o, sibling[0], sibling[1])
     o.validate()
     return o, t
+
+
+FLIP = {'min': 'max', 'max': 'min', 'add': 'set', 'set': 'add', 'any': 'add', 'replace': 'any'}
+
+
+def gen_sibling(rng, et, n):
+    """Another event type with the SAME property names and other merge strategies, and colliding events of it.
+    What merging events of one type yields does not depend on what else was merged before."""
+    et2 = json.loads(json.dumps(et))
+    for p in et2['props']:
+        if p['merge'] != 'match' and p['name'] != et2['vp']:
+            p['merge'] = FLIP[p['merge']]
+            if p['merge'] in ('add',):
+                p['multi'] = True
+    where = rng.choice(['same', 'other'])
+    name = 't2' if where == 'same' else 't'
+    events = gen_group(rng, et2, n)
+    for e in events:
+        e['type'] = name
+    return {'et': et2, 'events': events, 'where': where, 'name': name}
 
 
 def specs_of(et):
@@ -258,9 +286,13 @@ class C04(Property):
         for i in range(n):
             et = gen_event_type(rng)
             k = rng.choice([1, 2, 2, 3, 3, 4, 5, 6])
-            yield {'et': et, 'events': gen_group(rng, et, k, small_domain=rng.random() < 0.3),
-                   'repr': rng.choice(['plain', 'plain', 'element', 'parsed']),
-                   'how': rng.choice(['merge', 'merge', 'merge', 'resolve'])}
+            case = {'et': et, 'events': gen_group(rng, et, k, small_domain=rng.random() < 0.3),
+                    'repr': rng.choice(['plain', 'plain', 'element', 'parsed']),
+                    'how': rng.choice(['merge', 'merge', 'merge', 'resolve'])}
+            if i % 5 == 4:
+                # events of a similar looking event type are merged first, in the same process
+                case['sibling'] = gen_sibling(rng, et, rng.randint(2, 3))
+            yield case
         # exhaustive small domain: two values per property, all pairs/triples of instances
         m = 6 if tier == 'quick' else 60
         for i in range(m):
@@ -273,7 +305,14 @@ class C04(Property):
     def observe(self, case):
         import edxml
         from edxml.error import EDXMLMergeConflictError
-        o, t = build_ontology(case['et'])
+        sib = case.get('sibling')
+        o, t = build_ontology(case['et'], (sib['name'], sib['et']) if sib and sib['where'] == 'same' else None)
+        if sib:
+            o2 = o if sib['where'] == 'same' else build_ontology(sib['et'])[0]
+            try:
+                o2.get_event_type(sib['name']).merge_events([gen.build_event(e, case['repr']) for e in sib['events']])
+            except EDXMLMergeConflictError:
+                pass
         events = [gen.build_event(e, case['repr']) for e in case['events']]
         before = [view_of(e) for e in events]
 
@@ -331,6 +370,10 @@ class C04(Property):
         return out
 
     def reductions(self, case):
+        if case.get('sibling'):
+            c = json.loads(json.dumps(case))
+            del c['sibling']
+            yield c
         for i in range(len(case['events'])):
             if len(case['events']) > 1:
                 c = json.loads(json.dumps(case))
